@@ -5,7 +5,7 @@ from tools.props import c02
 
 RULE = ('emit layer (exact text incl. what was written before an error, Coq model vs implementation). Direct on the implementation, exhaustively per case: for every index of the '
         'stream.write() and stream.flush() sequence of a dump, of the read() sequence of a load_all from text and byte streams under several read schedules, of the invocations of a user '
-        'constructor and of a user representer, a unique exception object is raised at that index: it must reach the caller as the same object (is), what was written before it must be a '
+        'constructor and of a user representer, a unique exception object (class rotating over a bespoke class and every class the library itself catches: TypeError, ValueError, KeyError, IndexError, AttributeError, ImportError, binascii.Error, UnicodeDecodeError, UnicodeEncodeError, ...) is raised at that index: it must reach the caller as the same object (is), what was written before it must be a '
         'prefix of the fault-free writes, reference calls must behave afterwards and the shipped class tables must be untouched; pure-Python and LibYAML classes (quick caps the indices per '
         'case at 40, thorough at 400). non-trivial = at least one fault point; distinct by case')
 
@@ -26,7 +26,8 @@ def run(ctx):
         cases.append(['load', [t, rng.choice([[], [1] * 50, [7, 100, 4096], [4095, 2]]), rng.random() < 0.5], rng.choice(['py', 'py', 'c']), cap])
     for n in (1, 2, 3, 5, 8):
         for be in ('py', 'c'):
-            cases.append(['ctor', n, be, cap]); cases.append(['repr', n, be, cap])
+            for k0 in range(0, 14, 1 if not ctx.quick() else 3):          # k0 shifts which exception class meets which fault point
+                cases.append(['ctor', n, be, cap, k0]); cases.append(['repr', n, be, cap, k0])
     res = corr.direct(ctx, 'c19', cases, describe=lambda c: dict(kind_of_fault=c[0], payload=c[1] if c[0] in ('ctor', 'repr') else (c[1] if c[0] == 'dump' else dict(text=c[1][0][:2000], sizes=c[1][1][:6], binary=c[1][2])), backend=c[2]), label='faults')
     ctx.count('fault_points', sum(r.get('points', 0) for r in res if isinstance(r, dict)))
     ctx.partial = [dict(theorem='fault_propagates / writes_are_prefix', missing='handler policy (regenerated) and left-to-right consumption proved; identity of the propagated exception and the write prefix are decided by the exhaustive direct run')]
